@@ -143,7 +143,7 @@ pub fn run(tier: Tier) -> i32 {
             let big_ps: &[usize] = if c.len() <= 2 { &[4060, 4078, 4085, 4088, 4090, 4093, 4096] } else { &[] };
             for &p in [0usize, 1, 7].iter().chain(big_ps.iter()) {
                 let pd = pdu(p, 0);
-                for (li, &(l, prior)) in [(L6A, Prior::Fresh), (L3A, Prior::Fresh), (Lbl::Bcast, Prior::Fresh), (L6A, Prior::Same), (L3A, Prior::SameAtMax), (L6A, Prior::SameBelowMax)].iter().enumerate() {
+                for (li, &(l, prior)) in [(L6A, Prior::Fresh), (L3A, Prior::Fresh), (Lbl::Bcast, Prior::Fresh), (L6A, Prior::Same), (L3A, Prior::SameAtMax), (L6A, Prior::SameBelowMax), (L6A, Prior::OtherThenRefused), (L3A, Prior::OtherThenRefused)].iter().enumerate() {
                     let ext_wire: usize = c.iter().map(|e| 2 + e.1.len()).sum();
                     let complete_size = 2 + 2 + l.wire_len() + ext_wire + p;
                     let mut bl: Vec<usize> = if p <= 7 { (0..=complete_size + 3).collect() } else { (complete_size - 5..=complete_size + 3).chain(4090..=4110).chain([13, 40, 8192]).collect() };
@@ -178,11 +178,9 @@ pub fn run(tier: Tier) -> i32 {
                         // (2) the real receiver knowing all ids, completing a fragmented PDU with encap_frag
                         for storage in [p, p + 8] {
                             let mut rx = RxS::new(2, storage.max(1), &[storage.max(1), storage.max(1)]).build(DefaultCrc {}, all_mgr.clone());
-                            if matches!(prior, Prior::Same | Prior::SameAtMax | Prior::SameBelowMax) {
-                                // lock-step: the receiver saw the same preceding packet
-                                rx.verif_set_last_label(Some(l.to_label()));
-                            }
-                            let d1 = do_decap(&mut rx, &buf[..n]);
+                            // lock-step: the receiver saw the packets of the prior history
+                            rx.verif_set_last_label(prior.receiver_last(l).map(|x| x.to_label()));
+                            let d1 = do_decap(&mut rx, &buf[..(n).min(buf.len())]);
                             acc.transitions += 1;
                             acc.calls += 1;
                             acc.compared += 1;
@@ -199,11 +197,11 @@ pub fn run(tier: Tier) -> i32 {
                                     for _ in 0..6 {
                                         match do_encap_frag(&enc, &pd, cur, &mut bb) {
                                             EncOut::Completed(n2) => {
-                                                last = Some(do_decap(&mut rx, &bb[..n2]));
+                                                last = Some(do_decap(&mut rx, &bb[..(n2).min(bb.len())]));
                                                 break;
                                             }
                                             EncOut::Fragmented(n2, c2) => {
-                                                let _ = do_decap(&mut rx, &bb[..n2]);
+                                                let _ = do_decap(&mut rx, &bb[..(n2).min(bb.len())]);
                                                 cur = c2;
                                             }
                                             _ => break,
@@ -239,8 +237,8 @@ pub fn run(tier: Tier) -> i32 {
                             for tail in [&[][..], &[0x00, 0x00][..], &[0xC0, 0x05, 0x08, 0x00, 0x31, 0x32, 0x33][..]] {
                                 let st = p.max(16);
                                 let mut rx = RxS::new(2, st, &[st, st]).build(DefaultCrc {}, m.clone());
-                                rx.verif_set_last_label(if matches!(prior, Prior::Same | Prior::SameAtMax | Prior::SameBelowMax) { Some(l.to_label()) } else { None });
-                                let mut input = buf[..n].to_vec();
+                                rx.verif_set_last_label(prior.receiver_last(l).map(|x| x.to_label()));
+                                let mut input = buf[..(n).min(buf.len())].to_vec();
                                 input.extend_from_slice(tail);
                                 let d = do_decap(&mut rx, &input);
                                 acc.transitions += 1;
@@ -318,11 +316,11 @@ fn builtin_managers(rep: &Report) {
                         acc.transitions += 1;
                         acc.calls += 1;
                         let Some(n) = out.len() else { continue };
-                        let mut pkts = vec![buf[..n].to_vec()];
+                        let mut pkts = vec![buf[..(n).min(buf.len())].to_vec()];
                         if let EncOut::Fragmented(_, ctx) = &out {
                             let mut bb = vec![0u8; 64];
                             if let EncOut::Completed(n2) = do_encap_frag(&enc, &pd, *ctx, &mut bb) {
-                                pkts.push(bb[..n2].to_vec());
+                                pkts.push(bb[..(n2).min(bb.len())].to_vec());
                             }
                         }
                         let wit = || json!({"call":"encap_ext","pdu_len":p,"pdu_pattern":0,"frag_id":4,"pt":pt,"label":l.short(),"buffer_len":b,"extensions":c.iter().map(|e| json!([e.0, hex(&e.1)])).collect::<Vec<_>>(),"packets":pkts.iter().map(|x| hex(x)).collect::<Vec<_>>()});
